@@ -9,7 +9,7 @@
    jdump_grid) is not proved; it is covered by the correspondence + search. *)
 From Coq Require Import String List.
 Import ListNotations.
-From HS Require Import Base.Prelude Gen.JsonData Model.Value Model.Version Model.Json Proofs.PreludeP Proofs.JsonP Proofs.JsonGridP Proofs.JsonNestP.
+From HS Require Import Base.Prelude Gen.JsonData Model.Value Model.Version Model.Json Proofs.PreludeP Proofs.JsonP Proofs.JsonGridP Proofs.JsonNestP Proofs.JsonReadP Proofs.JsonVerP.
 Open Scope N_scope.
 
 (* text kinds: ANY payload, no hypothesis *)
@@ -137,6 +137,27 @@ Proof.
   apply G. apply G. left. split; [reflexivity|apply leaf_marker].
 Qed.
 
+(* ANY VERSION FAMILY: the writer and the reader judge every value by the grid's own version (pre-3.0 or not); the
+   whole-grid theorem holds for both, and under 2.0 for all grids over strings, URIs, Bins, markers, nulls, booleans, Remove *)
+Theorem C02_grid_any_version : forall f g ver p3 meta cols rows j,
+  ver_any ver p3 -> cols <> [] ->
+  NoDup (map fst meta) -> ~ In VER (map fst meta) -> Forall (fun kv => item_rt f g p3 (snd kv)) meta ->
+  NoDup (map fst cols) -> Forall (col_ok f g p3) cols -> Forall (row_ok f g p3 cols) rows ->
+  jdump_grid (S f) ver meta cols rows = Ok j ->
+  exists m, j = JObj m /\ jparse_grid (S g) m = Ok (VGrid ver meta cols rows).
+Proof. exact json_grid_roundtrip_any. Qed.
+Theorem C02_grid_2_0 : forall f g ver meta cols rows j,
+  ver_any ver true -> cols <> [] ->
+  NoDup (map fst meta) -> ~ In VER (map fst meta) -> Forall (fun kv => leaf2 (snd kv)) meta ->
+  NoDup (map fst cols) ->
+  Forall (fun c => NoDup (map fst (snd c)) /\ ~ In NAME (map fst (snd c)) /\ Forall (fun kv => leaf2 (snd kv)) (snd c)) cols ->
+  Forall (fun row => canon_row cols row /\ Forall (fun kv => leaf2 (snd kv)) row) rows ->
+  jdump_grid (S (S f)) ver meta cols rows = Ok j ->
+  exists m, j = JObj m /\ jparse_grid (S (S g)) m = Ok (VGrid ver meta cols rows).
+Proof. exact json_grid_roundtrip_2_0. Qed.
+Example C02_version_2_0_exists : ver_any (s_ "2.0") true.
+Proof. exact ver_any_2_0. Qed.
+
 (* rows given as one value per column are canonical *)
 Theorem C02_rows_canonical : forall (cols : list (str * list (str * hval))) cells,
   NoDup (map fst cols) -> length cells = length cols -> canon_row cols (combine (map fst cols) cells).
@@ -175,3 +196,5 @@ Print Assumptions C02_plain_grid.
 Print Assumptions C02_rows_canonical.
 Print Assumptions C02_values.
 Print Assumptions C02_full_grid.
+Print Assumptions C02_grid_any_version.
+Print Assumptions C02_grid_2_0.
